@@ -369,6 +369,11 @@ def run(ctx):
     for lb_, ub_ in ((-2.0, float(np.nextafter(-1, 0))), (float(np.nextafter(1, 2)) - 2.0 ** -52 * 0, 3.0)):
         mg += [[(NA, lb_, float(np.nextafter(ub_, lb_)), NA, ub_)], [(NA, lb_, float(np.nextafter(ub_, lb_)), ub_, ub_)],
                [(NA, lb_, NA, float(np.nextafter(lb_, ub_)), ub_)], [(NA, lb_, lb_, float(np.nextafter(lb_, ub_)), ub_)]]
+    # plausible boxes with one end of ordinary size and the other many orders of magnitude away (valid; the transformer's
+    # self-test must scale its tolerance with the box)
+    for big in (1e9, 3.7e10, 4.0e11, 2.5e12, 1.7e12):
+        for hb in (np.inf, 10.0 * big):
+            mg += [[(NA, -hb, -0.3, big, hb)], [(-1.0, -hb, -big, -0.3, hb)], [(1.0, -hb, 0.3, big, hb)], [(5.0, -hb, 0.7, 0.77 * big, hb)]]
     cells = cells1 + multi_cells(q) + mg
     B = 600
     blocks = [cells[i:i + B] for i in range(0, len(cells), B)]
